@@ -4,6 +4,7 @@
 # 2. applies it to /repo, runs the property's quick check (and extra checks), reverts /repo
 export GOFLAGS=-mod=mod GOPROXY=off GOSUMDB=off GOTOOLCHAIN=local
 wt=$1; m=$2; prop=$3; pkg=${4:-.}; shift 4
+runf=""; [ "$pkg" = "backend" ] && runf="-run Demo|demo|Mutant|C17"
 md=$wt/mutants/$m
 [ -f "$md/patch.diff" ] || { echo "no patch in $md"; exit 2; }
 cd "$wt" || exit 2
@@ -14,9 +15,9 @@ go build ./... >/dev/null 2>&1 && res="$res build=ok" || res="$res build=FAIL"
 fails=$(go test -vet=off -count=1 $(go list ./... | grep -v /mutants) 2>&1 | grep -E "^(--- FAIL|FAIL)" | grep -v "TestAsyncClient\|lorawan/backend\s\|^FAIL$" | head -3)
 [ -z "$fails" ] && res="$res suite=pass" || res="$res suite=FAIL($fails)"
 cp "$md/demo_test.go" "$pkg/zz_demo_test.go"
-go test -vet=off -count=1 -run 'Demo|demo' "./$pkg" >/tmp/demo_with.log 2>&1 && res="$res demo_with=PASS(!)" || res="$res demo_with=fail"
+go test -vet=off -count=1 $runf "./$pkg" >/tmp/demo_with.log 2>&1 && res="$res demo_with=PASS(!)" || res="$res demo_with=fail"
 git checkout -q -- .
-go test -vet=off -count=1 -run 'Demo|demo' "./$pkg" >/tmp/demo_without.log 2>&1 && res="$res demo_without=pass" || res="$res demo_without=FAIL(!)"
+go test -vet=off -count=1 $runf "./$pkg" >/tmp/demo_without.log 2>&1 && res="$res demo_without=pass" || res="$res demo_without=FAIL(!)"
 rm -f "$pkg"/zz_demo_test.go
 # run the checks against /repo with the change applied
 cd /verif
